@@ -55,7 +55,7 @@ int main(int argc, char ** argv) {
     hk_rng_t r; hk_rng_seed(&r, seed, (uint64_t)p);
     g_N = (int)hk_arg("n", 0);
     if (g_N <= 0) { static const int ns[] = { 1, 2, 3, 4, 7, 16, 64, 200 }; g_N = ns[hk_below(&r, 8)]; }
-    g_R = (int)(6000 / g_N) + 3; if (g_R > MAXR) g_R = MAXR;
+    g_R = (int)(4000 / g_N) + 3; if (g_R > MAXR) g_R = MAXR;
     if (hk_arg("rounds", 0) > 0) g_R = (int)hk_arg("rounds", 0);
     int i;
     for (i = 0; i < g_R + 2; i++) { atomic_store(&g_arrived[i], 0); atomic_store(&g_serial[i], 0); atomic_store(&g_passed[i], 0); }
